@@ -162,6 +162,31 @@ Theorem C15_subtask_placeholder_never_regex_matched : forall base_of is_rx rmatc
 Proof. exact subtask_word_never_in_regex_group. Qed.
 Print Assumptions C15_subtask_placeholder_never_regex_matched.
 
+(* WHO is asked for a command-line target (control.py 225-247).  A word f that is no task, no known target and whose basename
+   is no task is accepted iff somebody is a candidate, and then the `_regex_target_<f>:<k>` tasks appended to the selection (one
+   per candidate, in table order; names rx_name f k, all starting with '_regex_target') and the members of the fresh RegexGroup
+   are EXACTLY the placeholders k (no `_regex_target` task, no by-name sub-task placeholder) whose loader DECLARES a target_regex
+   that matches f, or declares none while --auto-delayed-regex is on.  In particular (last conjunct) a creator whose declared
+   target_regex does not match f is never a candidate, whatever --auto-delayed-regex says: the option gives the implicit `.*`
+   only to creators without a target_regex.  (The seeded change C15d flattens this test; the harness oracle RC judges the
+   same rule on the real _filter_tasks from the creators' declarations, without the model.)  Not stated here: what the run then
+   does with several candidates (asked in this order until one produces f: modelled and tied, C15_regex_target_*_partial) *)
+Theorem C15_regex_candidates_exact : forall sv base_of is_rx rmatch rx_name auto s f s',
+  q_tab (ss_d s) f = None -> q_tg (ss_d s) f = None -> q_tab (ss_d s) (base_of f) = None ->
+  (forall k, is_rx (rx_name f k) = true) ->
+  filter_one sv base_of is_rx rmatch rx_name auto s f = Some s' ->
+  let ms := matched sv is_rx rmatch auto (ss_d s) (ss_order s) (ss_sub s) f in
+  ms <> [] /\
+  q_torun (ss_d s') = q_torun (ss_d s) ++ map (rx_name f) ms /\
+  q_grp (ss_d s') (ss_gnext s) = Build_rgroup f ms false /\
+  (forall k, In k ms <->
+     In k (ss_order s) /\ is_rx k = false /\ skip_sub sv (ss_sub s) k = false /\
+     exists T, dt_loader (tab_get (ss_d s) k) = Some T /\
+               (if l_has_regex (q_ld (ss_d s) T) then rmatch T f = true else auto = true)) /\
+  (forall k T, dt_loader (tab_get (ss_d s) k) = Some T -> l_has_regex (q_ld (ss_d s) T) = true -> rmatch T f = false -> ~ In k ms).
+Proof. exact regex_candidates_exact. Qed.
+Print Assumptions C15_regex_candidates_exact.
+
 (* ------------------------------------------------------------------ examples (non-vacuity) *)
 (* names: 1 = static task x, 2 = delayed task d (create_after(executed='x', target_regex=..)),
    3 = d:a (target 10, task_dep x), 4 = d:b (target 11), 5 = word 'd:7', 20/21 = '_regex_target_<w>:d' *)
@@ -432,4 +457,50 @@ Example C15_subtask_placeholder_nonvacuous :
 Proof.
   cbv zeta. split; [reflexivity|]. split; [reflexivity|]. split; [eexists; split; reflexivity|].
   eexists. eexists. split; [vm_compute; reflexivity|]. split; vm_compute; reflexivity.
+Qed.
+
+(* ---- who is asked for a target: the dodo file of harness/c15.py e2e_rxcand_family.  1 = prep_a, 2 = a = create_after(executed=
+   'prep_a', target_regex='gen_a/.*'), 3 = prep_b, 4 = b = create_after(executed='prep_b') (no regex); a yields 6 = a:x (target
+   31 = gen_a/x.txt), b yields 5 = b:y (target 30 = out_b.txt); '_regex_target_<f>:<k>' = 100 + 10 (f - 30) + k *)
+Definition rc_x : dtask := {| dt := empty_task; dt_file_dep := []; dt_targets := []; dt_loader := None |}.
+Definition rc_ph (e T : name) : dtask :=
+  {| dt := task_with_dep empty_task [e]; dt_file_dep := []; dt_targets := []; dt_loader := Some T |}.
+Definition rc_tab (n : name) : option dtask :=
+  if n =? 1 then Some rc_x else if n =? 2 then Some (rc_ph 1 2) else if n =? 3 then Some rc_x else if n =? 4 then Some (rc_ph 3 4) else None.
+Definition rc_ld (n : name) : loader :=
+  if n =? 2 then Build_loader 0 (Some 1) None false true else if n =? 4 then Build_loader 1 (Some 3) None false false else empty_loader.
+Definition rc_creators (c : N) (t : name) : list (name * dtask) :=
+  if c =? 0 then [(2, ex_sub [6] []); (6, ex_sub [] [31])] else [(4, ex_sub [5] []); (5, ex_sub [] [30])].
+Definition rc_keys : list name := [1; 2; 3; 4; 5; 6; 102; 104; 112; 114].
+Definition rc_s0 : sstate := {| ss_d := loaded rc_tab rc_ld (fun _ => None); ss_order := [1; 2; 3; 4]; ss_gnext := 0; ss_sub := [] |}.
+Definition rc_rmatch (T f : name) : bool := (T =? 2) && (f =? 31).
+Definition rc_rxn (f k : name) : name := 100 + 10 * (f - 30) + k.
+Definition rc_run (auto : bool) (w : name) :=
+  option_map (fun d => let r := run_serial VHead rc_keys rc_creators (fun _ _ => 0) (fun x => x) false false 200 d in
+                       (enc_dtrace (fst r), snd r))
+             (process_sel SelHead (fun n => n) (fun n => 100 <=? n) rc_rmatch rc_rxn auto (ss_d rc_s0) (ss_order rc_s0) (Some [w])).
+
+(* `doit run --auto-delayed-regex out_b.txt`: only b is asked (a declares a regex that does not match): prep_b, creator b, b:y
+   and the hidden placeholder run -- neither prep_a nor creator a; without the option the word is rejected;
+   `doit run gen_a/x.txt`: only a; with the option both are candidates, a (defined first) produces it and b is never asked *)
+Example C15_regex_candidates_example :
+  matched SelHead (fun n => 100 <=? n) rc_rmatch true (ss_d rc_s0) (ss_order rc_s0) (ss_sub rc_s0) 30 = [4] /\
+  rc_run true 30 = Some ([1;3; 5;3; 7;3; 6;3;  14;1;4;4;  1;5; 5;5; 7;5; 6;5;  1;104; 5;104; 7;104; 6;104;  10]%Z, 0) /\
+  rc_run false 30 = None /\
+  matched SelHead (fun n => 100 <=? n) rc_rmatch false (ss_d rc_s0) (ss_order rc_s0) (ss_sub rc_s0) 31 = [2] /\
+  matched SelHead (fun n => 100 <=? n) rc_rmatch true (ss_d rc_s0) (ss_order rc_s0) (ss_sub rc_s0) 31 = [2; 4] /\
+  rc_run false 31 = Some ([1;1; 5;1; 7;1; 6;1;  14;0;2;2;  1;6; 5;6; 7;6; 6;6;  1;112; 5;112; 7;112; 6;112;  10]%Z, 0) /\
+  rc_run true 31 = rc_run false 31.
+Proof. vm_compute. repeat split; reflexivity. Qed.
+
+(* the hypotheses of C15_regex_candidates_exact are satisfiable: the word out_b.txt on that table, option on *)
+Example C15_regex_candidates_nonvacuous :
+  q_tab (ss_d rc_s0) 30 = None /\ q_tg (ss_d rc_s0) 30 = None /\ q_tab (ss_d rc_s0) ((fun n => n) 30) = None /\
+  (forall k, (fun n => 100 <=? n) (rc_rxn 30 k) = true) /\
+  exists s', filter_one SelHead (fun n => n) (fun n => 100 <=? n) rc_rmatch rc_rxn true rc_s0 30 = Some s' /\
+             q_torun (ss_d s') = [104].
+Proof.
+  split; [reflexivity|]. split; [reflexivity|]. split; [reflexivity|]. split.
+  - intro k. unfold rc_rxn. apply N.leb_le. lia.
+  - eexists. split; vm_compute; reflexivity.
 Qed.
